@@ -327,6 +327,8 @@ def run_plan(res, rng, plan, count, tier):
             dim, stream_ = 2, "gauss"          # centred 2-vectors are (anti)parallel: lengths 0, 2 and slightly negative roundings
             k = int(rng.choice([2, 4]))
         mult = float(rng.choice([1.5, 1.0, 0.5, 2.0, 1.0 / k, 2.0 / k, 3.0])) if stream != "hub" else float(rng.choice([2.0, 3.0, 2.5]))
+        if stream == "hub" and c < len(streams):
+            k, mult = 3, 1.5                         # bound round(4.5) = 4 (half to even), rows of the hub exceed it
         m = int(round(mult * k))
         if m < 1:
             mult, m = 1.0 / k, 1
